@@ -18,6 +18,7 @@ META = {
     "decided": ["C19.1 dumps completes before the destination is opened for writing (dominance, normal completion)",
                 "C19.2 no serialisation step is reachable after the destination is opened",
                 "C19.3 the data written is exactly the value returned by dumps, written once",
+                "C19.3b every normal return of save is preceded by the write (must-pass-through; no skip-the-write shortcut)",
                 "C19.4 the destination path does not flow into dumps"],
     "not_decided": ["'a successful save loads back equal' (C02's remainder)", "OS-level write failures / partial writes"],
 }
@@ -209,6 +210,25 @@ def check(ctx):
                "%d write sites reachable from save: bytes on disk are not exactly the serialised content" % len(writers))
     else:
         ctx.ob("write.once", save, "number of write sites", True, "exactly one write site")
+
+    # C19.3b a save that returns has written: every path of `save` from entry to a normal return passes a write site (or the call of
+    # the helper that holds it) -- a skip-the-write shortcut (unchanged-content cache, "file is newer" test) makes save report success
+    # while the file holds other bytes than the serialisation
+    from engine.flow import path_avoiding
+    writer_fns = {f for f, _ in writers if f is not save}
+
+    def writes_here(x):
+        if any(f is save and x is n for f, n in writers):
+            return True
+        if x.kind == "call" and writer_fns:
+            reach = an.reachable_fns([c for c in an.callees(save, x)]) if an.callees(save, x) else ()
+            return any(w in reach for w in writer_fns)
+        return False
+    skip = path_avoiding(an, save, g.entry, lambda x: x is g.exit, writes_here)
+    ctx.ob("write.on-every-success", save, "every normal return of save is preceded by the write", skip is None,
+           "save cannot return normally without having written the serialised content" if skip is None else
+           "save can return normally without writing (path: %s): it reports success while the file does not hold the serialisation"
+           % " -> ".join("%s@%s" % (x.kind, x.lineno) for x in skip[:14]))
 
     # the counterpart: what load hands to the parser is exactly what it read
     load = model.method("Config", "load")
